@@ -111,3 +111,191 @@ Theorem C07_compose_commit : forall st i b dst bad srcs dm cp o d,
   /\ (gens_bounded s -> forall b0 n0 o0, find_obj s b0 n0 = Some o0 -> o_gen o0 < o_gen o').
 Proof. exact compose_commit. Qed.
 Print Assumptions C07_compose_commit.
+
+(* ---- 4. exactly one conditional writer wins ---- *)
+
+(* any number of threads, each with uploads of (b, n) conditioned on ifGenerationMatch = g, the
+   generation the object has: in every schedule that lets all finish, the first commit answers
+   200 and every other one 412 *)
+Theorem C07_exactly_one_conditional_writer_wins : forall s0 b n g (payloads : list (str * bytes)) sched,
+  n <> [] -> 0 < g <= int64_max -> has_gen b n g s0 ->
+  let st := init_g s0 (map (fun cd => [RUploadMedia b n (fst cd) (snd cd) (cp_lit (print_int g))]) payloads) in
+  all_done (fst (grun st sched)) ->
+  map r_status (done_resps (snd (grun st sched)))
+  = match length payloads with O => [] | S k => 200 :: repeat 412 k end.
+Proof. exact exactly_one_conditional_writer_wins. Qed.
+Print Assumptions C07_exactly_one_conditional_writer_wins.
+
+Theorem C07_exactly_one_conditional_writer_wins_from : forall st sched b n g,
+  n <> [] -> 0 < g <= int64_max ->
+  all_reqs (gen_upload b n g) st -> has_gen b n g (g_store st) ->
+  all_done (fst (grun st sched)) ->
+  map r_status (done_resps (snd (grun st sched)))
+  = match pending st with O => [] | S k => 200 :: repeat 412 k end.
+Proof. exact exactly_one_conditional_writer_wins_from. Qed.
+Print Assumptions C07_exactly_one_conditional_writer_wins_from.
+
+(* likewise for uploads conditioned on non-existence (ifGenerationMatch=0) of an absent object *)
+Theorem C07_exactly_one_dne_writer_wins : forall s0 b n (payloads : list (str * bytes)) sched,
+  n <> [] -> find_obj s0 b n = None ->
+  let st := init_g s0 (map (fun cd => [RUploadMedia b n (fst cd) (snd cd) (cp_lit [48%N])]) payloads) in
+  all_done (fst (grun st sched)) ->
+  map r_status (done_resps (snd (grun st sched)))
+  = match length payloads with O => [] | S k => 200 :: repeat 412 k end.
+Proof. exact exactly_one_dne_writer_wins. Qed.
+Print Assumptions C07_exactly_one_dne_writer_wins.
+
+(* the sequential core: after one succeeds the condition is false for all later ones *)
+Theorem C07_gen_upload_seq : forall b n g s r, n <> [] -> 0 < g <= int64_max -> gen_upload b n g r ->
+  (has_gen b n g s -> r_status (snd (handle s r)) = 200 /\ has_other_gen b n g (fst (handle s r)))
+  /\ (has_other_gen b n g s -> handle s r = (s, err 412)).
+Proof. intros b n g s r Hn Hg Hr. split; [apply gen_upload_win|apply gen_upload_lose]; assumption. Qed.
+Print Assumptions C07_gen_upload_seq.
+
+(* ---- 5. the lock is held from check to mutation ---- *)
+
+(* while thread i holds the lock of (b, n), steps of other threads do not change object (b, n);
+   guard: no thread runs a resumable PUT or a bucket deletion (they take no object lock) *)
+Theorem C07_held_object_stable : forall st i j b n, glock_inv st -> all_reqs lock_respecting st ->
+  In ((b, n), i) (g_holders st) -> j <> i ->
+  find_obj (g_store (fst (gstep st j))) b n = find_obj (g_store st) b n.
+Proof. exact held_object_stable. Qed.
+Print Assumptions C07_held_object_stable.
+
+Theorem C07_held_object_stable_run : forall mid st i b n, glock_inv st -> all_reqs lock_respecting st ->
+  In ((b, n), i) (g_holders st) -> Forall (fun j => j <> i) mid ->
+  let st' := fst (grun st mid) in
+  find_obj (g_store st') b n = find_obj (g_store st) b n
+  /\ In ((b, n), i) (g_holders st')
+  /\ nth_error (g_threads st') i = nth_error (g_threads st) i.
+Proof. exact held_object_stable_run. Qed.
+Print Assumptions C07_held_object_stable_run.
+
+(* the guard is needed *)
+Theorem C07_held_object_stable_refuted_delete_bucket :
+  let st := fst (gstep (init_g c07_s1 [[c07_up [2]%N]; [RDeleteBucket c07_b c07_cp0]]) 0) in
+  In ((c07_b, c07_n), 0%nat) (g_holders st)
+  /\ find_obj (g_store st) c07_b c07_n <> None
+  /\ find_obj (g_store (fst (gstep st 1))) c07_b c07_n = None.
+Proof. exact held_object_stable_refuted_delete_bucket. Qed.
+Print Assumptions C07_held_object_stable_refuted_delete_bucket.
+
+Theorem C07_held_object_stable_refuted_resumable_put :
+  let s2 := fst (handle c07_s1 (RResumableInit c07_b false (mkUpMeta c07_n [116]%N 0 []) c07_cp0)) in
+  let put := RResumablePut [49]%N (Some [98; 121; 116; 101; 115; 32; 48; 45; 48; 47; 49]%N) [9]%N in
+  let st := fst (gstep (init_g s2 [[c07_up [2]%N]; [put]]) 0) in
+  In ((c07_b, c07_n), 0%nat) (g_holders st)
+  /\ (exists o, find_obj (g_store st) c07_b c07_n = Some o /\ o_data o = [1]%N)
+  /\ (exists o, find_obj (g_store (fst (gstep st 1))) c07_b c07_n = Some o /\ o_data o = [9]%N).
+Proof. exact held_object_stable_refuted_resumable_put. Qed.
+Print Assumptions C07_held_object_stable_refuted_resumable_put.
+
+(* a patch conditioned on metageneration m that answers 200 was applied to an object whose
+   metageneration was m at its commit *)
+Theorem C07_metagen_patch_never_applies_to_unmatched_state : forall st i b n p cp m rsp,
+  step_effect st i = Some (EHandle (RPatch b n p cp)) -> cp3 cp = PRaw (print_int m) -> 0 < m <= int64_max ->
+  snd (gstep st i) = ODone rsp -> r_status rsp = 200 ->
+  exists o, find_obj (g_store st) b n = Some o /\ o_metagen o = m
+    /\ find_obj (g_store (fst (gstep st i))) b n
+       = Some (mkObj (o_data o) (match pt_ctype p with Some t => t | None => o_ctype o end)
+                     (o_gen o) (m + 1) (o_md5 o)
+                     (match pt_meta p with Some kv => merge_meta (o_meta o) kv | None => o_meta o end)).
+Proof. exact metagen_patch_never_applies_to_unmatched_state. Qed.
+Print Assumptions C07_metagen_patch_never_applies_to_unmatched_state.
+
+(* and the object that passed the check at the yield is the object the patch is applied to,
+   whatever the other threads do in between *)
+Theorem C07_held_patch_applies_to_checked_object : forall st i b n p cp mid,
+  glock_inv st -> all_reqs lock_respecting st ->
+  cur_req st i = Some (RPatch b n p cp, GNew) -> snd (gstep st i) = OAt ->
+  Forall (fun j => j <> i) mid ->
+  let st2 := fst (grun (fst (gstep st i)) mid) in
+  exists o c,
+    find_obj (g_store st) b n = Some o
+    /\ resolve_conds (g_store st) cp = Some c /\ validate_conds (Some (o_gen o, o_metagen o)) c = VPass
+    /\ find_obj (g_store st2) b n = Some o
+    /\ cur_req st2 i = Some (RPatch b n p cp, GHold None)
+    /\ snd (gstep st2 i) = ODone (if pt_bad p then err 400 else mkResp 200 (BMeta (view b n (patched p o))))
+    /\ (pt_bad p = false -> find_obj (g_store (fst (gstep st2 i))) b n = Some (patched p o)).
+Proof. exact held_patch_applies_to_checked_object. Qed.
+Print Assumptions C07_held_patch_applies_to_checked_object.
+
+(* ---- 6. no lost update ---- *)
+
+Theorem C07_object_changes_only_by_own_key_commit : forall st j b n, all_reqs lock_respecting st ->
+  find_obj (g_store (fst (gstep st j))) b n <> find_obj (g_store st) b n ->
+  exists e, step_effect st j = Some e /\ effect_key e = Some (b, n).
+Proof. exact object_changes_only_by_own_key_commit. Qed.
+Print Assumptions C07_object_changes_only_by_own_key_commit.
+
+Theorem C07_no_lost_update : forall st i e sched b n, all_reqs lock_respecting st ->
+  step_effect st i = Some e ->
+  g_store (fst (gstep st i)) = apply_geffect (g_store st) e
+  /\ (quiet_on (fst (gstep st i)) sched (b, n) ->
+      find_obj (g_store (fst (grun st (i :: sched)))) b n = find_obj (apply_geffect (g_store st) e) b n).
+Proof. exact no_lost_update. Qed.
+Print Assumptions C07_no_lost_update.
+
+(* ---- 7. reads ---- *)
+
+Theorem C07_mem_read_snapshot : forall st i b n p r,
+  cur_req st i = Some (r, p) -> r = RGetMeta b n \/ r = RGetMedia b n ->
+  g_store (fst (gstep st i)) = g_store st
+  /\ snd (gstep st i) = ODone (match find_obj (g_store st) b n with
+                               | Some o => if match r with RGetMeta _ _ => true | _ => false end
+                                           then mkResp 200 (BMeta (view b n o))
+                                           else mkResp 200 (BMedia (o_data o) (o_ctype o) (o_gen o) (o_metagen o))
+                               | None => err 404
+                               end).
+Proof. exact mem_read_snapshot. Qed.
+Print Assumptions C07_mem_read_snapshot.
+(* file_read_mixture_refuted: the file store's 3-step Add is not in this model; a read between its
+   steps mixing new content with old metadata is exhibited dynamically as finding GCS-10. *)
+
+(* ---- non-vacuity ---- *)
+
+(* two uploaders of the same object: the second is blocked while the first is parked at its yield *)
+Example C07_two_uploaders_one_blocked :
+  map otag (snd (grun (init_g c07_s1 [[c07_up [2]%N]; [c07_up [3]%N]]) [0; 1; 0; 1; 1]%nat)) = [1; 2; 200; 1; 200].
+Proof. vm_compute. reflexivity. Qed.
+
+(* two conditional uploaders: the hypotheses of C07_exactly_one_conditional_writer_wins hold, and
+   exactly one answers 200 in either order *)
+Example C07_conditional_writers_nonvacuous :
+  c07_n <> [] /\ 0 < c07_g <= int64_max /\ has_gen c07_b c07_n c07_g c07_s1
+  /\ all_done (fst (grun (init_g c07_s1 [[c07_cup [2]%N]; [c07_cup [3]%N]]) [0; 1; 0; 1]%nat))
+  /\ map otag (snd (grun (init_g c07_s1 [[c07_cup [2]%N]; [c07_cup [3]%N]]) [0; 1; 0; 1]%nat)) = [1; 2; 200; 412]
+  /\ map otag (snd (grun (init_g c07_s1 [[c07_cup [2]%N]; [c07_cup [3]%N]]) [1; 0; 1; 0]%nat)) = [1; 2; 200; 412].
+Proof.
+  split; [discriminate|]. split; [vm_compute; split; [reflexivity|discriminate]|]. split.
+  - eexists. split; [vm_compute; reflexivity|]. split; [reflexivity|]. vm_compute. discriminate.
+  - split; [intros th Hin; vm_compute in Hin; destruct Hin as [<-|[<-|[]]]; reflexivity|].
+    split; vm_compute; reflexivity.
+Qed.
+
+Example C07_dne_writers_nonvacuous :
+  find_obj init_state c07_b c07_n = None
+  /\ all_done (fst (grun (init_g init_state [[c07_dup [2]%N]; [c07_dup [3]%N]]) [0; 1; 0; 1]%nat))
+  /\ map otag (snd (grun (init_g init_state [[c07_dup [2]%N]; [c07_dup [3]%N]]) [0; 1; 0; 1]%nat)) = [1; 2; 200; 412].
+Proof.
+  split; [reflexivity|]. split; [intros th Hin; vm_compute in Hin; destruct Hin as [<-|[<-|[]]]; reflexivity|].
+  vm_compute. reflexivity.
+Qed.
+
+(* a metageneration-conditioned patch parked at its yield while an uploader of the same object is
+   blocked: hypotheses of C07_held_patch_applies_to_checked_object *)
+Example C07_held_patch_nonvacuous :
+  let st := init_g c07_s1 [[c07_patch]; [c07_up [3]%N]] in
+  all_reqs lock_respecting st
+  /\ cur_req st 0 = Some (c07_patch, GNew) /\ snd (gstep st 0) = OAt
+  /\ map otag (snd (grun st [0; 1; 0; 1; 1]%nat)) = [1; 2; 200; 1; 200].
+Proof.
+  cbn zeta. split.
+  - apply all_reqs_init. repeat constructor.
+  - split; [reflexivity|]. split; vm_compute; reflexivity.
+Qed.
+
+(* the linearisation of a schedule in which the second thread commits first *)
+Example C07_log_example :
+  map fst (glog_t (init_g c07_s1 [[c07_cup [2]%N]; [c07_cup [3]%N]]) [1; 0; 1; 0]%nat) = [(1, 1); (0, 1)]%nat.
+Proof. vm_compute. reflexivity. Qed.
